@@ -4,7 +4,9 @@
   What lives where in the code:
     * process-global spelling settings `G` = the three `FieldWrapper` class attributes
       (wrappers/field_wrapper.py:97-103), overwritten by EVERY constructor (parsing.py:149-151) and read
-      when option strings are generated (field_wrapper.py:591-595) — i.e. during `_preprocessing`;
+      when option strings are generated (field_wrapper.py:591-595) — i.e. during `_preprocessing`, which
+      (since the D5 repair) first re-asserts the parser's OWN settings on the class (parsing.py:539-544), so
+      `G` is written by parses too but no longer influences any result;
     * per parser: its own settings (`spec.cfg`, parsing.py:145-147, only used by `set_defaults`), the
       registered dataclasses (`_wrappers`, parsing.py:278), the `_preprocessing_done` latch
       (parsing.py:144,527-554), the argparse actions added so far (`table`), the call counters of the
@@ -40,6 +42,7 @@ structure ClassSpec where
   name : Str
   fields : List FieldSpec
   sub : Option SubSpec
+  custom : List (Str × BConv) := []     -- `field(..., type=fn)`: a custom `type=` kept in the Field's metadata
   deriving DecidableEq, Repr
 
 /-- one `parser.add_arguments(cls, dest)` -/
@@ -52,17 +55,24 @@ structure Reg where
 structure Spec where
   cfg : Cfg
   cfgPath : Bool            -- `add_config_path_arg=True`
-  resolve : Bool            -- `conflict_handler="resolve"` (stdlib argparse keyword)
+  cfgFiles : List Str       -- `config_path=[…]` of the constructor (re-applied by every parse, parsing.py:300-306)
   regs : List Reg
   deriving DecidableEq, Repr
 
-/-- content of a config file: dest ↦ field ↦ value -/
+/-- pushed defaults: dest ↦ field ↦ value -/
 abbrev FileC := List (Str × List (Str × Val))
+
+/-- content of a config file: `{dest: {field: value}}`, or — the layout `set_defaults` expects from a
+    WITHOUT_ROOT parser with a single dataclass (parsing.py:389-396) — `{field: value}` -/
+inductive FileJ
+  | rooted (c : FileC)
+  | rootless (kv : List (Str × Val))
+  deriving DecidableEq, Repr
 
 /-- the world outside the process: float parsing table and the files on disk (`none` = no such file) -/
 structure Env where
   fenv : FEnv
-  files : List (Str × Option FileC)
+  files : List (Str × Option FileJ)
 
 /-- a registration after `_resolve_subgroups`: the chosen key of its subgroup field, if it has one -/
 structure FReg where
@@ -98,7 +108,7 @@ structure PState where
   frozen : List FReg := []                  -- `_wrappers` as rewritten by `_preprocessing`
   late : List Reg := []                     -- registrations appended after `_preprocessing` ran
   fileDefs : FileC := []                    -- defaults pushed into the wrappers by `set_defaults`
-  cfgRegistered : Bool := false             -- `--config_path` already added to this parser
+  cfgDefault : Option Val := none           -- `--config_path` already added to this parser, with this default
   broken : Bool := false                    -- left the modelled fragment
   deriving DecidableEq, Repr
 
@@ -156,8 +166,14 @@ def chooseAll (env : Env) (G : Cfg) (regs : List Reg) (args : List Str) : Except
 
 /-- `DataclassWrapper.add_arguments` (dataclass_wrapper.py:183-214) for one registration and, right
     after it, for the child wrapper of the chosen alternative (`_flatten_wrappers`, parsing.py:1118-1122) -/
+def customAct (custom : List (Str × BConv)) (f : FieldSpec) (a : Act) : Act :=
+  match custom.lookup f.name with
+  | some c => { a with conv := .base c }       -- `custom_arg_options.get("type", …)` (field_wrapper.py:398)
+  | none => a
+
 def regActs (G : Cfg) (defs : FileC) (fr : FReg) : Option (List Act) :=
-  match fr.reg.cls.fields.mapM (fun f => fieldAct G fr.reg.dest (applyDef defs fr.reg.dest f)) with
+  match fr.reg.cls.fields.mapM (fun f =>
+      (fieldAct G fr.reg.dest (applyDef defs fr.reg.dest f)).map (customAct fr.reg.cls.custom f)) with
   | none => none
   | some plain =>
     match fr.reg.cls.sub, fr.key with
@@ -194,16 +210,17 @@ inductive PreOut
   | ok (p : PState)
   | stop (p : PState) (o : Out)
 
-/-- `_preprocessing(args)`: early return once done; otherwise resolve the subgroups FROM THIS argv, add one
-    action per field spelled with the CURRENT globals `G`, and latch -/
-def preprocess (env : Env) (G : Cfg) (p : PState) (args : List Str) : PreOut :=
+/-- `_preprocessing(args)`: early return once done; otherwise re-assert the parser's OWN settings on the
+    FieldWrapper class (so the spelling below is `p.spec.cfg`, whatever other constructors ran), resolve the
+    subgroups FROM THIS argv, add one action per field, and latch -/
+def preprocess (env : Env) (p : PState) (args : List Str) : PreOut :=
   if p.preDone then .ok p
   else
-    match chooseAll env G p.spec.regs args with
+    match chooseAll env p.spec.cfg p.spec.regs args with
     | .error (.unmodelled w) => .stop { p with broken := true } (.unmodelled w)
     | .error o => .stop p o
     | .ok fregs =>
-      match tableFor G p.fileDefs p.table fregs with
+      match tableFor p.spec.cfg p.fileDefs p.table fregs with
       | none => .stop { p with broken := true } (.unmodelled "field outside the fragment / clashing options")
       | some tbl =>
         .ok { p with preDone := true, table := tbl, frozen := fregs,
@@ -289,91 +306,157 @@ def unionDefs (a b : FileC) : FileC :=
     if acc.any (fun p => p.1 = dk.1) then acc.map (fun p => if p.1 = dk.1 then (p.1, unionKV p.2 dk.2) else p)
     else acc ++ [dk]) a
 
+/-- what `set_defaults` knows when it reads a file: `self._wrappers` (destination ↦ field names) and whether the
+    file is taken as root-less (`self.nested_mode == WITHOUT_ROOT and len(self._wrappers) == 1`,
+    parsing.py:389 — the parser's OWN nested mode) -/
+structure LoadCtx where
+  wrappers : List (Str × List Str)
+  rootless : Bool
+
+def plainNames (c : ClassSpec) : List Str := c.fields.map (·.name)
+
+/-- `self._wrappers` at this moment: the registrations, or — once `_preprocessing` ran — the flattened list
+    including one child wrapper per resolved subgroup (children have dotted dests, no file addresses them) -/
+def loadCtx (p : PState) : LoadCtx :=
+  let ws : List (Str × List Str) :=
+    if p.preDone then
+      p.frozen.flatMap (fun fr => (fr.reg.dest, plainNames fr.reg.cls) ::
+        (match fr.key with | some _ => [(fr.reg.dest ++ ['.'], [])] | none => [])) ++
+      p.late.map (fun r => (r.dest, plainNames r.cls))
+    else p.spec.regs.map (fun r => (r.dest, plainNames r.cls))
+  { wrappers := ws, rootless := p.spec.cfg.nest = .withoutRoot && ws.length = 1 }
+
+/-- the defaults one file pushes; `none` = the file does not fit the layout the parser expects (stray
+    namespace attributes / RuntimeError in the code) — outside the fragment -/
+def interpret (ctx : LoadCtx) : FileJ → Option FileC
+  | .rooted c =>
+    if !ctx.rootless && c.all (fun dk => match ctx.wrappers.lookup dk.1 with
+        | some names => dk.2.all (fun kv => names.contains kv.1)
+        | none => false) then some c else none
+  | .rootless kv =>
+    match ctx.rootless, ctx.wrappers with
+    | true, [(d, names)] => if kv.all (fun x => names.contains x.1) then some [(d, kv)] else none
+    | _, _ => none
+
 inductive LoadOut
   | ok (defs : FileC)
   | missing (defs : FileC)        -- `FileNotFoundError` after the earlier files were applied
-  | foreign                       -- mentions a destination that is not registered: outside the fragment
+  | foreign                       -- does not fit the expected layout: outside the fragment
 
-def loadFiles (env : Env) (dests : List Str) : FileC → List Str → LoadOut
+def loadFiles (env : Env) (ctx : LoadCtx) : FileC → List Str → LoadOut
   | defs, [] => .ok defs
   | defs, f :: fs =>
     match env.files.lookup f with
     | none => .missing defs
     | some none => .missing defs
-    | some (some c) =>
-      if c.all (fun dk => dests.contains dk.1) then loadFiles env dests (unionDefs defs c) fs else .foreign
+    | some (some j) =>
+      match interpret ctx j with
+      | some c => loadFiles env ctx (unionDefs defs c) fs
+      | none => .foreign
 
 def pathNames : List Scalar → List Str
   | [] => []
   | .path s :: r => s :: pathNames r
   | _ :: r => pathNames r
 
-def eraseCfg (tbl : List Act) (cs : List Nat) : List Act × List Nat :=
-  let keep := tbl.map (fun a => a.dest != cfgDest)
-  ((tbl.zip keep).filterMap (fun x => if x.2 then some x.1 else none),
-   (cs.zip keep).filterMap (fun x => if x.2 then some x.1 else none))
+/-- what the temporary parser makes of argv: the remaining tokens, the value of `config_path`, the file names -/
+structure Scan where
+  rest : List Str
+  v : Val
+  names : List Str
+  deriving DecidableEq, Repr
+
+/-- `temp_parser.parse_known_args(args)` (parsing.py:314-329); without `add_config_path_arg` nothing is scanned -/
+def cfgScan (env : Env) (cfgPath : Bool) (argv : List Str) : Except Out Scan :=
+  if !cfgPath then .ok { rest := argv, v := .sc .none, names := [] }
+  else
+    match run env.fenv [cfgTempAct] [0] argv with
+    | .exit c k => .error (.exit c k)
+    | .raise e => .error (.raise e)
+    | .unmodelled w => .error (.unmodelled w)
+    | .ok ns rest _ =>
+      let v := (ns.lookup cfgDest).getD (.sc .none)
+      .ok { rest := rest, v := v, names := match v with | .list l => pathNames l | _ => [] }
+
+/-- `config_path_action.default = config_path`: the one action registered for `--config_path` (parsing.py:342-352) -/
+def setCfgDefault (v : Val) : List Act → List Act
+  | [] => []
+  | a :: rest => if a.dest = cfgDest then { a with default := some v } :: rest else a :: setCfgDefault v rest
 
 inductive CfgOut
   | go (p : PState) (rest : List Str)
   | stop (p : PState) (o : Out)
 
+/-- the prologue of `parse_known_args` (parsing.py:300-352): constructor files, then the `--config_path` scan -/
 def cfgPhase (env : Env) (p : PState) (argv : List Str) : CfgOut :=
-  if !p.spec.cfgPath then .go p argv
-  else if p.spec.cfg.nest = .withoutRoot then
-    .stop { p with broken := true } (.unmodelled "config file layout under WITHOUT_ROOT")
-  else
-    -- temp_parser.parse_known_args(args)  (parsing.py:314-329)
-    match run env.fenv [cfgTempAct] [0] argv with
-    | .exit c k => .stop p (.exit c k)
-    | .raise e => .stop p (.raise e)
-    | .unmodelled w => .stop { p with broken := true } (.unmodelled w)
-    | .ok ns rest _ =>
-      let v := (ns.lookup cfgDest).getD (.sc .none)
-      let names := match v with | .list l => pathNames l | _ => []
-      -- for config_file in config_paths: self.set_defaults(config_file)  (parsing.py:331-334)
-      match loadFiles env (p.spec.regs.map (·.dest)) p.fileDefs names with
-      | .foreign => .stop { p with broken := true } (.unmodelled "file mentions an unregistered destination")
-      | .missing defs => .stop { p with fileDefs := defs } (.raise "FileNotFoundError".toList)
-      | .ok defs =>
-        let p1 := { p with fileDefs := defs }
-        -- self.add_argument("--config_path", …) — on EVERY call (parsing.py:338-343)
-        if !p1.cfgRegistered then
-          .go { p1 with cfgRegistered := true, table := p1.table ++ [cfgAct v],
-                        counters := p1.counters.map (· ++ [0]) } rest
-        else if p1.spec.resolve then
-          -- conflict_handler="resolve": the old action loses its only option string and is removed
-          match p1.counters with
-          | none => .go { p1 with table := (eraseCfg p1.table []).1 ++ [cfgAct v] } rest
-          | some cs =>
-            let (t, c) := eraseCfg p1.table cs
-            .go { p1 with table := t ++ [cfgAct v], counters := some (c ++ [0]) } rest
-        else .stop p1 (.raise "ArgumentError".toList)
+  -- for config_file in self.config_path: self.set_defaults(config_file)   (every call)
+  match loadFiles env (loadCtx p) p.fileDefs p.spec.cfgFiles with
+  | .foreign => .stop { p with broken := true } (.unmodelled "constructor config file does not fit the layout")
+  | .missing defs => .stop { p with fileDefs := defs } (.raise "FileNotFoundError".toList)
+  | .ok defs0 =>
+    let p0 := { p with fileDefs := defs0 }
+    if !p.spec.cfgPath then .go p0 argv
+    else if !p.spec.cfgFiles.isEmpty then
+      .stop { p0 with broken := true } (.unmodelled "config_path= together with add_config_path_arg")
+    else
+      match cfgScan env true argv with
+      | .error (.unmodelled w) => .stop { p0 with broken := true } (.unmodelled w)
+      | .error o => .stop p0 o
+      | .ok sc =>
+        -- for config_file in config_paths: self.set_defaults(config_file)  (parsing.py:331-334)
+        match loadFiles env (loadCtx p0) p0.fileDefs sc.names with
+        | .foreign => .stop { p0 with broken := true } (.unmodelled "config file does not fit the layout")
+        | .missing defs => .stop { p0 with fileDefs := defs } (.raise "FileNotFoundError".toList)
+        | .ok defs =>
+          match p0.cfgDefault with
+          | none =>
+            -- first call: self.add_argument("--config_path", type=Path, default=config_path)
+            .go { p0 with fileDefs := defs, cfgDefault := some sc.v, table := p0.table ++ [cfgAct sc.v],
+                          counters := p0.counters.map (· ++ [0]) } sc.rest
+          | some _ =>
+            -- later calls: only the default of that action is refreshed (the D6 repair)
+            .go { p0 with fileDefs := defs, cfgDefault := some sc.v, table := setCfgDefault sc.v p0.table } sc.rest
 
 /-! ### the operations -/
 
+/-- `_preprocessing` + `super().parse_known_args` + `_postprocessing` on the state the prologue left -/
+def finishP (env : Env) (p1 : PState) (known : Bool) (rest : List Str) : PState × Out :=
+  match preprocess env p1 rest with
+  | .stop p2 o => (p2, o)
+  | .ok p2 =>
+    match p2.counters with
+    | none => ({ p2 with broken := true }, .unmodelled "closure counters not tracked after a failed parse")
+    | some cs =>
+      let r := finishOut env p2.table cs p2.frozen p2.late p2.fileDefs known rest
+      ({ p2 with counters := r.2 }, r.1)
+
 /-- `parser.parse_args(argv)` (`known = false`) / `parser.parse_known_args(argv)` -/
-def parseP (env : Env) (G : Cfg) (p : PState) (known : Bool) (argv : List Str) : PState × Out :=
+def parseP (env : Env) (p : PState) (known : Bool) (argv : List Str) : PState × Out :=
   if p.broken then (p, .unmodelled "parser left the fragment earlier")
   else
     match cfgPhase env p argv with
     | .stop p1 o => (p1, o)
-    | .go p1 rest =>
-      match preprocess env G p1 rest with
-      | .stop p2 o => (p2, o)
-      | .ok p2 =>
-        match p2.counters with
-        | none => ({ p2 with broken := true }, .unmodelled "closure counters not tracked after a failed parse")
-        | some cs =>
-          let r := finishOut env p2.table cs p2.frozen p2.late p2.fileDefs known rest
-          ({ p2 with counters := r.2 }, r.1)
+    | .go p1 rest => finishP env p1 known rest
 
 /-- `parser.print_help()`: runs `_preprocessing(args=[])` (parsing.py:381-383) -/
-def helpP (env : Env) (G : Cfg) (p : PState) : PState × Out :=
+def helpP (env : Env) (p : PState) : PState × Out :=
   if p.broken then (p, .unmodelled "parser left the fragment earlier")
   else
-    match preprocess env G p [] with
+    match preprocess env p [] with
     | .stop p2 o => (p2, o)
     | .ok p2 => (p2, .unit)
+
+/-- the FieldWrapper class attributes after a parse call: the temporary `--config_path` parser is CONSTRUCTED with
+    this parser's settings (parsing.py:314-320) and `_preprocessing` re-asserts them (parsing.py:539-544); a call
+    that stops before either (constructor file missing) or does neither leaves them alone -/
+def gAfterParse (env : Env) (G : Cfg) (p : PState) : Cfg :=
+  if p.broken then G
+  else
+    match loadFiles env (loadCtx p) p.fileDefs p.spec.cfgFiles with
+    | .ok _ => if p.spec.cfgPath || !p.preDone then p.spec.cfg else G
+    | _ => G
+
+def gAfterHelp (G : Cfg) (p : PState) : Cfg := if p.broken || p.preDone then G else p.spec.cfg
 
 /-- `parser.add_arguments(cls, dest)` (parsing.py:218-279): appended to `_wrappers`; once `_preprocessing` ran
     nobody looks at new wrappers again until `_postprocessing` -/
@@ -385,7 +468,7 @@ def addP (p : PState) (r : Reg) : PState × Out :=
     else ({ p with spec := spec }, .unit)
 
 inductive Op
-  | construct (i : Nat) (cfg : Cfg) (cfgPath resolve : Bool)
+  | construct (i : Nat) (cfg : Cfg) (cfgPath : Bool) (cfgFiles : List Str)
   | add (i : Nat) (r : Reg)
   | parse (i : Nat) (known : Bool) (argv : List Str)
   | printHelp (i : Nat)
@@ -409,9 +492,9 @@ def Op.idx : Op → Nat
 
 /-- one API call -/
 def step (env : Env) (s : State) : Op → State × Out
-  | .construct i cfg cp rs =>
+  | .construct i cfg cp fs =>
     -- the constructor stores the settings on `self` AND on the FieldWrapper class (parsing.py:145-151)
-    ({ G := cfg, pool := setPool s.pool i (newP { cfg := cfg, cfgPath := cp, resolve := rs, regs := [] }) }, .unit)
+    ({ G := cfg, pool := setPool s.pool i (newP { cfg := cfg, cfgPath := cp, cfgFiles := fs, regs := [] }) }, .unit)
   | .add i r =>
     match s.pool i with
     | none => (s, .unmodelled "no such parser")
@@ -419,11 +502,13 @@ def step (env : Env) (s : State) : Op → State × Out
   | .parse i known argv =>
     match s.pool i with
     | none => (s, .unmodelled "no such parser")
-    | some p => let (p', o) := parseP env s.G p known argv; ({ s with pool := setPool s.pool i p' }, o)
+    | some p =>
+      let (p', o) := parseP env p known argv
+      ({ G := gAfterParse env s.G p, pool := setPool s.pool i p' }, o)
   | .printHelp i =>
     match s.pool i with
     | none => (s, .unmodelled "no such parser")
-    | some p => let (p', o) := helpP env s.G p; ({ s with pool := setPool s.pool i p' }, o)
+    | some p => let (p', o) := helpP env p; ({ G := gAfterHelp s.G p, pool := setPool s.pool i p' }, o)
   | .formatHelp i =>
     -- `format_help` is not overridden: it prints whatever actions exist and changes nothing
     match s.pool i with
@@ -435,9 +520,13 @@ def runHist (env : Env) : State → List Op → List Out
   | _, [] => []
   | s, op :: ops => (step env s op).2 :: runHist env (step env s op).1 ops
 
-/-- the answer of a freshly built, identically configured parser: a one-parser history in a process whose
-    globals are that parser's own settings -/
+/-- the FieldWrapper class attributes after each call of a history -/
+def runG (env : Env) : State → List Op → List Cfg
+  | _, [] => []
+  | s, op :: ops => (step env s op).1.G :: runG env (step env s op).1 ops
+
+/-- the answer of a freshly built, identically configured parser: a one-parser history -/
 def fresh (env : Env) (spec : Spec) (known : Bool) (argv : List Str) : Out :=
-  (parseP env spec.cfg (newP spec) known argv).2
+  (parseP env (newP spec) known argv).2
 
 end SpVerif.History
